@@ -19,6 +19,8 @@ Inductive case :=
    NeedAppropriation flag and AppropriationAmount *)
 | CApprop (id : N) (pr : params) (h0 h1 : bool) (outs : list outp) (out_res : Z)
           (needed : bool) (amount : Z) (refs : list (Z * bool)) (special_res : Z)
+(* DefaultChecker.CheckTransactionInput on inputs given as (outpoint id, Sequence) *)
+| CInputs (id : N) (ins : list inp) (in_res : Z)
 (* getTransactionFee: error?, value *)
 | CFee (id : N) (refs outs : list Z) (ok : bool) (fee : Z)
 (* blockchain.GetTxFee(tx, ELAAssetID, refs) *)
@@ -48,6 +50,8 @@ Definition check (c : case) : option N :=
       if (verdict (approp_outputs_ok pr h0 h1 outs) =? out_res) &&
          (verdict (approp_special_ok needed refs (map o_val outs) amount) =? special_res)
       then None else Some id
+  | CInputs id ins in_res =>
+      if verdict (check_inputs ins) =? in_res then None else Some id
   | CFee id refs outs ok fee =>
       match tx_fee refs outs with
       | Some f => if ok && (f =? fee) then None else Some id
